@@ -93,3 +93,30 @@ pub fn pair(r: &mut Rng, bits: usize, pat: usize) -> (BigUint, BigUint, BigUint)
     }
     (x, y, g)
 }
+
+/// Leading words (a0, a1) with a0 >= 2^63 >= ... whose Euclidean remainder sequence passes exactly through
+/// `target` (followed by a random smaller remainder), built backwards from there with small quotients. The
+/// single-word Lehmer loops compare their remainders with fixed limits (2^32); this puts a remainder right
+/// on such a limit at a random depth and parity.
+pub fn words_through(r: &mut Rng, target: u64) -> (u64, u64) {
+    let target = target.max(1);
+    let (mut x, mut y) = (u128::from(target), u128::from(if target > 1 { r.u64() % target } else { 0 }));
+    while x < 1 << 62 {
+        let q = match r.below(8) {
+            0 => 1 + r.below(1 << 10) as u128,
+            1 | 2 => 2 + r.below(3) as u128,
+            _ => 1,
+        };
+        let nx = q * x + y;
+        if nx >= 1 << 62 {
+            break;
+        }
+        y = x;
+        x = nx;
+    }
+    // last step: the smallest quotient that sets the top bit (x < 2^62, so the result stays below 2^64)
+    let q = ((1u128 << 63) - y).div_ceil(x).max(1);
+    let a0 = q * x + y;
+    assert!(a0 >= 1 << 63 && a0 < 1 << 64 && x <= a0, "harness: words_through construction");
+    (a0 as u64, x as u64)
+}
